@@ -110,7 +110,45 @@ def run_case(case, jax, jnp, ds):
                                    upd_dtype=str(upd[k].dtype)) for k in names]))
     params = {k: params[k] + upd[k] for k in names}
     state = new_state
-  return dict(case=case, steps=steps)
+  out = dict(case=case, steps=steps)
+  if case.get("pmap"):
+    out["pmap"] = pmap_vs_plain(case, kw, lr, steps, jax, jnp, ds)
+  return out
+
+
+def pmap_vs_plain(case, kw, lr, steps, jax, jnp, ds):
+  """The same history under jax.pmap on D devices (batch_axis_name set, replicated inputs): every
+  replica's update must be the update of the un-pmapped run, which the model has just validated."""
+  D = case["pmap"]
+  devs = jax.devices()[:D]
+  if len(devs) != D:
+    return dict(skipped="only %d devices" % len(devs))
+  opt = ds.distributed_shampoo(lr, **dict(kw, batch_axis_name="batch"))
+  rep = lambda tree: jax.tree.map(lambda x: jnp.stack([x] * D), tree)
+  names = [lf["name"] for lf in steps[0]["leaves"]]
+  shp = {lf["name"]: tuple(lf["shape"]) for lf in steps[0]["leaves"]}
+  params = {k: jnp.asarray(np.asarray(lf["param"], np.float32).reshape(shp[k]))
+            for k, lf in zip(names, steps[0]["leaves"])}
+  state = jax.pmap(opt.init, axis_name="batch", devices=devs)(rep(params))
+  upd = jax.pmap(opt.update, axis_name="batch", devices=devs)
+  worst, first = 0.0, None
+  for st in steps:
+    grads = {lf["name"]: jnp.asarray(np.asarray(lf["grad"], np.float32).reshape(shp[lf["name"]]))
+             for lf in st["leaves"]}
+    u, state = upd(rep(grads), state, rep(params))
+    for lf in st["leaves"]:
+      ref = np.asarray(lf["update"], np.float64).reshape(shp[lf["name"]])
+      for d in range(D):
+        got = np.asarray(u[lf["name"]][d], np.float64)
+        rel = float(np.abs(got - ref).max() / max(np.abs(ref).max(), 1e-30))
+        if not np.isfinite(rel):
+          rel = float("inf")
+        if rel > worst:
+          worst = rel
+          first = first or dict(step=st["t"], leaf=lf["name"], replica=d, rel=rel)
+    params = {k: params[k] + jnp.asarray(np.asarray(
+        [lf["update"] for lf in st["leaves"] if lf["name"] == k][0], np.float32).reshape(shp[k])) for k in names}
+  return dict(worst=worst, first=first, D=D)
 
 
 def run(payload):
